@@ -45,7 +45,7 @@ SPECIFIC = {
  'C15': ("Proved: == is exactly equality of (seq, node id, signature) -- an equivalence relation by construction; clone is observationally identical; compare_content == (content_rlp(a) == content_rlp(b)); content_rlp is injective on valid content (lemma_content_rlp_injective); re-encode/decode image equal via C04.",
          "Hash for Enr feeds the hasher exactly (seq, node id, signature), the triple == compares, so equal records hash equally for every Hasher (ghost trace hasher_fed/hash_tok; that Vec<u8>, u64 and NodeId feed a function of their value is assumed). 'equal records carry identical pairs' needs signature unforgeability."),
  'C16': ("Proved (Verus, unbounded): parse Ok <==> len == 32 and Ok(id).raw == input; new/raw/From/AsRef/PartialEq identities. Kani function contract on the real NodeId::parse (slices <= 64 bytes, bounded) and a full-domain identity harness over all 32-byte values.",
-         "Debug writes 0x + 64 lower-case hex digits and Display 0x + first two bytes + '..' + last two bytes (verified against the hex crate's assumed contract hex_chars). The serde DEserialiser of NodeId (derive + serde_hex_prfx, i.e. compiler-generated code included) is checked by a BOUNDED Kani harness: for every ASCII string of at most 70 bytes it is Ok exactly for 64 hex digits with or without one 0x prefix and yields those bytes. NOT covered: the serde serialiser of NodeId (format! + hex::encode did not terminate in CBMC within 20 minutes), non-ASCII input strings."),
+         "Debug writes 0x + 64 lower-case hex digits and Display 0x + first two bytes + '..' + last two bytes (verified against the hex crate's assumed contract hex_chars). The helper serde_hex_prfx::deserialize that NodeId's derived Deserialize calls is PROVED by Verus for every string and every FromHex target: accepted exactly when, after ONE optional leading 0x, the target's from_hex accepts the text, with that value (hex::FromHex for [u8; 32] assumed: exactly 64 hex digits of either case). The whole deserialiser of NodeId (derive + helper, i.e. compiler-generated code included) is additionally checked by a BOUNDED Kani harness: for every ASCII string of at most 70 bytes it is Ok exactly for 64 hex digits with or without one 0x prefix and yields those bytes. NOT covered: the serde serialiser of NodeId (format! + hex::encode did not terminate in CBMC within 20 minutes), non-ASCII input strings."),
  'C17': ("REDUCED CLAIM (glue only). Proved: secp256k1_from_bytes / ed25519_from_bytes succeed exactly when the library accepts the bytes, zero the buffer on success, leave it untouched on failure, store the same secret in the right variant; encode returns the variant's secret; public/sign dispatch.",
          "ASSUMED (stand-ins): which scalars the libraries accept ([1, n-1] / 32 bytes), public-key derivation, to_bytes(from_slice(b)) == b, signatures verify (L1)."),
 }
